@@ -23,6 +23,17 @@ def make_nested(a):
   return nodes.Mid(x=make_pair(a), y=make_pair(a, b='inner'))
 
 
+@auto_config.auto_config(experimental_always_inline=False)
+def make_noargs():
+  return nodes.Base(x=[nodes.node_b()], y=make_pair('na'))
+
+
+@auto_config.auto_config
+def outer2():
+  return nodes.node(x=make_noargs(), y=[make_noargs(), make_pair('z'),
+                                        make_noargs()])
+
+
 @auto_config.auto_config
 def outer(a, b='ob'):
   p = make_pair(a)
